@@ -22,7 +22,7 @@ import (
 
 func TestMain(m *testing.M) { harness.Main(m) }
 
-const rule = "C03: model types built with reflect.StructOf from the schemagen grammar (2-10 payload fields over all int/uint widths, floats, bool, string, []byte, time.Time, pointers to those, sql.Null*, scanner/valuer types Label/Point/Attrs, serializer json/gob/unixtime fields, embedded / embeddedPrefix structs incl. pointer, anonymous, nested and twice-embedded ones; tags column, default literal / expression / null, autoCreateTime/autoUpdateTime[:milli|nano] and by field name; eight primary-key modes) x 1-8 records of boundary-biased values x create path (value, slice, pointer slice, array, batches, map / []map with and without model) x key fill (auto, supplied, mixed) x RETURNING on/off x read paths (Find, First, Take into structs, pointers, maps, []map, by marker, key and inline key); non-trivial = at least 3 columns, at least one pointer / nullable / serializer / custom / embedded column, at least one boundary value and, for slice-like paths, at least 2 records; distinct = schema + values + paths"
+const rule = "C03: model types built with reflect.StructOf from the schemagen grammar (2-10 payload fields over all int/uint widths, floats, bool, string, []byte, time.Time, pointers to those, sql.Null*, scanner/valuer types Label/Point/Attrs, serializer json/gob/unixtime fields, field types implementing SerializerInterface themselves (SerDoc with optional members, SerList), embedded / embeddedPrefix structs incl. pointer, anonymous, nested and twice-embedded ones; tags column, default literal / expression / null, autoCreateTime/autoUpdateTime[:milli|nano] and by field name; eight primary-key modes) x 1-8 records of boundary-biased values x create path (value, slice, pointer slice, array, batches, map / []map with and without model) x key fill (auto, supplied, mixed with RETURNING, explicit-keys-first-then-generated) x RETURNING on/off x read paths (Find, First, Take into structs, pointers, maps, []map, by marker, key and inline key); non-trivial = at least 3 columns, at least one pointer / nullable / serializer / custom / embedded column, at least one boundary value and, for slice-like paths, at least 2 records; distinct = schema + values + paths"
 
 // kindsForTier lets development widen the grammar kind by kind (VERIF_C03_KINDS=scalars|...); default all.
 func excluded(rt *rapid.T) map[string]bool {
@@ -79,7 +79,7 @@ func hasDBDefault(m *sg.Model) bool {
 
 func hasSerializer(m *sg.Model) bool {
 	for _, l := range m.Leaves {
-		if l.Kind.Group == "serializer" {
+		if strings.HasPrefix(l.Kind.Group, "serializer") {
 			return true
 		}
 	}
@@ -135,6 +135,14 @@ func genCase(rt *rapid.T) *caseT {
 		// every row reports its own key
 		if c.returning && !c.plan.IsMap() {
 			fills = append(fills, sg.KeyMixed)
+		}
+		// explicit keys first (ascending, above everything in the table), generated keys last: the
+		// last generated id belongs to the last zero-key element and the ids before it to the zero-key
+		// elements before it, which is what the back-fill (forward with RETURNING, backwards from
+		// LastInsertId without) hands out; zero-key elements before or between explicit ones stay
+		// excluded (create.go: "the @id value is correct, when: 1. without setting auto-increment primary key")
+		if !c.plan.IsMap() && n >= 2 {
+			fills = append(fills, sg.KeyLeading, sg.KeyLeading)
 		}
 		c.fill = rapid.SampledFrom(fills).Draw(rt, "keyfill")
 	}
